@@ -26,11 +26,12 @@ class Case:
         self.next_id = 1
 
     # ---- commands
-    def log(self, t, lg=0, lvl=4, pad=0, mode=0, stall=False, id=None, static=False):
+    def log(self, t, lg=0, lvl=4, pad=0, mode=0, stall=False, id=None, static=False, named=False):
         i = id if id is not None else self.next_id
         self.next_id = max(self.next_id, i) + 1
         # static=True: a static-level call site (no dynamic level byte in the record); mode + 10 tells the harness
-        c = ('log', t, i, lg, lvl, (HDR_LOG - 1 if static else HDR_LOG) + pad, mode + (10 if static else 0), stall); self.cmds.append(c); return i
+        # named=True: a call site with named placeholders (mode + 20)
+        c = ('log', t, i, lg, lvl, (HDR_LOG - 1 if static else HDR_LOG) + pad, mode + (20 if named else 10 if static else 0), stall); self.cmds.append(c); return i
     def resume(self, t): self.cmds.append(('resume', t))
     def flush(self, t, lg=0):
         i = self.next_id; self.next_id += 1
@@ -107,7 +108,7 @@ def parse_obs(line):
     out = []; i = 0
     while i < len(t):
         k = t[i]
-        if k == 1: out.append(('write', t[i + 1], t[i + 2], t[i + 3])); i += 4
+        if k == 1: out.append(('write', t[i + 1], t[i + 2], t[i + 3], t[i + 4])); i += 5
         elif k == 2: out.append(('sflush', t[i + 1])); i += 2
         elif k == 3: out.append(('note', t[i + 1], t[i + 2])); i += 3
         elif k == 4: out.append(('flag', t[i + 1])); i += 2
@@ -174,6 +175,7 @@ class Track:
         self.stmts = {}      # id -> dict
         self.flushes = {}    # id -> dict(thread, start_pos, ret_pos)
         self.writes = []     # (pos, sink, id, level)
+        self.named_seen = [] # (pos, sink, id, number of named args the sink received)
         self.sflush = []     # (pos, sink)
         self.notes = []      # (pos, kind, n)
         self.ctx = []        # (pos, n)
@@ -182,7 +184,7 @@ class Track:
         self.ok = obs is not None
         if not self.ok: return
         for p, o in enumerate(obs):
-            if o[0] == 'write': self.writes.append((p, o[1], o[2], o[3]))
+            if o[0] == 'write': self.writes.append((p, o[1], o[2], o[3])); self.named_seen.append((p, o[1], o[2], o[4]))
             elif o[0] == 'sflush': self.sflush.append((p, o[1]))
             elif o[0] == 'note': self.notes.append((p, o[1], o[2]))
             elif o[0] == 'ctx': self.ctx.append((p, o[1]))
@@ -204,7 +206,7 @@ class Track:
                 code, pos = al[k][1], al[k][2]; k += 1
                 if kind == 'log':
                     t, i, lgi, lvl = c[1], c[2], c[3], c[4]
-                    d = dict(thread=t, logger=lgi, level=lvl, ts=clock, size=c[5], mode=c[6] % 10, static=c[6] >= 10, pos=pos, outcome=None, ret=None)
+                    d = dict(thread=t, logger=lgi, level=lvl, ts=clock, size=c[5], mode=c[6] % 10, static=10 <= c[6] < 20, named=c[6] >= 20, pos=pos, outcome=None, ret=None)
                     self.stmts[i] = d
                     if t in pending or t in dead: d['outcome'] = 'ignored'
                     elif lvl < levels[lgi]: d['outcome'] = 'filtered'
